@@ -25,6 +25,16 @@ CHECKS = {
             "Streams of 1-8 generated messages (long header lines, bodies that look like SIP, LF/CRLF, keep-alives) are cut into segments by the plan (systematic single/double cuts for short streams, clustered multi-cuts otherwise) and read back in kernel-chosen sizes; per connection the relayed messages must be exactly the stream's messages in order and content."),
     "C13": ("exploration", "3 C13", "seeded simulation with Route-set generator, alias tables and keep-next-hop settings; reference route-consumption function",
             "Requests with Route sets of 0-6 entries (own address / alias / near misses / foreign, decorated entries) are relayed by the simulated proxy; the relayed Route list must equal the reference: own entry consumed only when it designates the receiving listener, next hop stripped unless configured to keep it, the rest unchanged in order."),
+    "C04": ("exploration", "3 C04", "seeded simulation of concurrent dialogs with reactive parties, UDP duplication/reordering/loss; pin model driven by observed causality",
+            "1-50 concurrent INVITE and SUBSCRIBE dialogs over 2-6 backends behind one or two listeners; backends answer from their configured address, user agents continue a dialog when they observe the answer; every in-dialog request sent after the establishing answer was observed must reach the answering backend and nothing else (requests concurrent with the establishing event are counted don't-cares)."),
+    "C12": ("exploration", "3 C12", "seeded simulation: 2-8 TCP client connections from one simulated address, answers of reactive backends reordered across connections, segmentation and short reads",
+            "Every provisional and first final answer relayed for a request must be a write on the connection on which the request with that branch arrived; the proxy must not dial towards the client while its connections are open; every answered transaction gets its final answer."),
+    "C17": ("exploration", "3 C17", "metamorphic twin worlds: same plan, same schedule tape and entropy, every message respelled / re-laid-out; histories compared event by event",
+            "World B replays world A's plan with header names independently respelled (canonical, compact, upper, lower, random case) and Via/Route/Record-Route lists re-laid-out; relay decision, destination, decoded routing stacks, remaining headers, body and the pinning decisions of scripted dialogs must be the same."),
+    "C18": ("exploration", "3 C18", "seeded simulation with map iteration order drawn from the seed (rewrite rule R5); in-package repeated lookups on the table built by the real configuration code plus end-to-end routed requests",
+            "Route tables of 1-4 (thorough: up to 9) entries over the pattern universe; each host of the universe is looked up 50 times by a simulated goroutine while the kernel permutes every map iteration; answers must belong to the class's admissible set and be identical across repetitions; requests routed by To host must reach the same destination every time."),
+    "C20": ("fault_enumeration", "3 C20", "complete enumeration of the connection-fault table on simulated TCP (write failing after k bytes, peer close, refused dial, accept-then-reset) against real FailOverClientTransport / TCPClientTransport / TCPBackend objects, plus the same faults end to end",
+            "Every cell of {cached inbound connection: absent, healthy, failing on write, closed by the peer} x {reconnectable path: absent, fresh, stale failing once, refusing, resetting once, resetting always} and of the TCPBackend table is executed in every world for 1-3 messages with seeded sizes and failure offsets; per-connection byte logs and Send's result are judged: success iff the complete message was accepted exactly once, fallback to a fresh connection when one is available, error (and return) when none is, no write on a failed connection."),
 }
 
 NA = {
@@ -49,7 +59,7 @@ m = {
     }],
     "checks": [],
     "not_applicable": [],
-    "notes": "All checks: python3 check.py <id> [--tier quick|thorough]; replay: python3 check.py <id> --replay <file>. Exit 0 held / 1 VIOLATION / 2 infrastructure. known_findings.json lists open findings (none) and fixed ones.",
+    "notes": "All checks: python3 check.py <id> [--tier quick|thorough]; replay: python3 check.py <id> --replay <file>. Exit 0 held / 1 VIOLATION / 2 infrastructure. known_findings.json lists open findings (KF-*: printed as KNOWN-FINDING, exit 0) and fixed ones.",
 }
 for p in props:
     pid = p["id"]
